@@ -287,6 +287,58 @@ func c03RunEntry(kind string, arg1, arg2, arg3 []byte) T {
 		_ = ggql.WriteJSONValue(&buf, res, 2)
 		_ = ggql.WriteSDLValue(&buf, res, -1)
 		return A("ret")
+	case "api": // arg1 = scenario: roots that were not filled by one successful load
+		queryObj := func() *ggql.Object {
+			obj := &ggql.Object{Base: ggql.Base{N: "Query"}}
+			_ = obj.AddField(&ggql.FieldDef{Base: ggql.Base{N: "b"}, Type: &ggql.Ref{Base: ggql.Base{N: "Int"}}})
+			return obj
+		}
+		top := func() interface{} { return &c03Schem{Query: &c03Q{B: 2}, Mutation: &c03Mut{}} }
+		reqs := []string{"{ b }", "{ __schema { queryType { name } types { name } } }", "mutation { m(x: 1) }", "subscription { b }", "{ __typename }"}
+		var root *ggql.Root
+		switch string(arg1) {
+		case "fresh":
+			root = ggql.NewRoot(top())
+		case "fresh-nilobj":
+			root = ggql.NewRoot(nil)
+		case "zero":
+			root = &ggql.Root{}
+		case "addtypes":
+			root = ggql.NewRoot(top())
+			_ = root.AddTypes(queryObj())
+		case "addtypes-then-load":
+			root = ggql.NewRoot(top())
+			_ = root.AddTypes(queryObj())
+			_ = root.ParseString("type Mutation { m(x: Int): Int }")
+		case "failed-load-only":
+			root = ggql.NewRoot(top())
+			_ = root.ParseString("type Query { b: Zork }")
+		case "enum-then-query":
+			root = ggql.NewRoot(top())
+			_ = root.ParseString("enum E { A }")
+			_ = root.ParseString("type Query { b: Int }")
+		case "extend-schema-fresh":
+			root = ggql.NewRoot(top())
+			_ = root.ParseString("type Query { b: Int }\ntype M { m(x: Int): Int }\nextend schema { mutation: M }")
+		case "extend-schema-dir-fresh":
+			root = ggql.NewRoot(top())
+			_ = root.ParseString("directive @x on SCHEMA\nextend schema @x")
+		case "extend-schema-implied":
+			root = ggql.NewRoot(top())
+			_ = root.ParseString("type Query { b: Int }\ntype M { m(x: Int): Int }")
+			_ = root.ParseString("extend schema { mutation: M }")
+		default:
+			return A("bad-kind")
+		}
+		for _, rq := range reqs {
+			res := root.ResolveString(rq, "", nil)
+			var buf bytes.Buffer
+			_ = ggql.WriteJSONValue(&buf, res, 2)
+		}
+		_ = root.SDL(true, true)
+		_, _ = root.AddEvent("x", 1)
+		_ = root.Unsubscribe("x")
+		return A("ret")
 	case "value": // arg1 = text: parse and print in every mode
 		v, err := ggql.ParseValueString(string(arg1))
 		if err == nil {
@@ -533,6 +585,10 @@ func c03CrashClass(stderr string) string {
 		return "nil-root-object"
 	case has("(*InputField).") && has("nil pointer"):
 		return "inputfield-nil-type"
+	case has("(*Root).addExtends") && has("nil pointer"):
+		return "nil-schema-extend"
+	case has("(*Root).ResolveExecutable") && has("nil pointer") && !has("(*Root).resolveSels"):
+		return "nil-schema-resolve"
 	}
 	// top ggql frame
 	re := regexp.MustCompile(`github\.com/uhn/ggql/pkg/ggql\.([^\s(]*\(?[^\s)]*\)?[^\s(]*)\(`)
@@ -906,6 +962,10 @@ func runC03(o *Out, r *Rng, tier string) {
 		"directive @d(a: Int @dep, b: Int @dep) on OBJECT\ndirective @dep on ARGUMENT_DEFINITION"}
 	for _, l := range loads {
 		cases = append(cases, c03Entry("load", l, "", "", "fixed-load"))
+	}
+	for _, sc := range []string{"fresh", "fresh-nilobj", "zero", "addtypes", "addtypes-then-load", "failed-load-only", "enum-then-query",
+		"extend-schema-fresh", "extend-schema-dir-fresh", "extend-schema-implied"} {
+		cases = append(cases, c03Entry("api", sc, "", "", "api-root"))
 	}
 	for i := 0; len(cases)-entryStart < nEntry; i++ {
 		rr := r.Fork()
